@@ -221,6 +221,8 @@ def run_tlc(
         for line in out.splitlines():
             if "is violated" in line and line.startswith("Error:"):
                 violated.append(line.split("Error:")[1].strip())
+    if "Error: Temporal properties were violated" in out:
+        violated.append("Liveness")
     if "Error: Deadlock reached" in out:
         violated.append("Deadlock")
     if "Error: Postcondition" in out and "is false" in out:
